@@ -46,6 +46,8 @@ type propSpec struct {
 	profile    *Profile
 	nontrivial func(st *Stats, sc *Script) bool
 	assume     []string
+	// sweeps returns deterministic scripts that enumerate a finite sub-space (run before the search)
+	sweeps func(r *vkit.Run) []*Script
 }
 
 func labelsOf(st *Stats) []string {
@@ -182,6 +184,31 @@ func runProp(t *testing.T, ps *propSpec) {
 	}
 	if r.Violations() > 0 {
 		return
+	}
+	if ps.sweeps != nil {
+		for i, sc := range ps.sweeps(r) {
+			res := runCase(t, sc, false)
+			r.Label("sweep")
+			account(sc, res, "")
+			if i == 0 {
+				r.Sample("sweep", func() any {
+					short := *sc
+					if len(short.Steps) > 10 {
+						short.Steps = short.Steps[:10]
+					}
+
+					return map[string]any{"first_steps": short, "steps": len(sc.Steps)}
+				})
+			}
+			if res.x != nil {
+				r.LabelN("sweep-steps", len(sc.Steps))
+			}
+			if kind, msg := judge(r, ps.id, res); kind != "" {
+				r.Violate(kind, "sweep: "+msg, mkReplay(sc, res))
+
+				return
+			}
+		}
 	}
 	prof := *ps.profile
 	if r.Thorough() && r.Size > 0 {
